@@ -759,31 +759,27 @@ class Result(JsonSerializable):
         Result
             The converted object.
         """
-        if isinstance(d['value'], Iterable) and \
-           d['update_type_code'] == Result.CHOICETYPE:
-
-            values = d['value']
-
+        # The state is restored field by field: replaying it through
+        # `update` cannot restore the order of accumulated values of a
+        # CHOICETYPE result and divides by zero for a RATIOTYPE result
+        # that was never updated.
+        if d['update_type_code'] == Result.CHOICETYPE:
             r = Result(name=d['name'],
                        update_type_code=d['update_type_code'],
                        accumulate_values=d['accumulate_values_bool'],
-                       choice_num=len(values))  # type: ignore
-
-            for i, v in enumerate(values):
-                for _ in range(v):
-                    r.update(i)
-
+                       choice_num=len(d['value']))
+            r._value = np.array(d['value'], dtype=int)
         else:
-            r = Result.create(name=d['name'],
-                              update_type=d['update_type_code'],
-                              value=d['value'],
-                              total=d['total'],
-                              accumulate_values=d['accumulate_values_bool'])
-            r._value_list = d['value_list']
-            r._total_list = d['total_list']
-            r.num_updates = d['num_updates']
-            r._result_sum = d['result_sum']
-            r._result_squared_sum = d['result_squared_sum']
+            r = Result(name=d['name'],
+                       update_type_code=d['update_type_code'],
+                       accumulate_values=d['accumulate_values_bool'])
+            r._value = d['value']
+        r._total = d['total']
+        r._value_list = d['value_list']
+        r._total_list = d['total_list']
+        r.num_updates = d['num_updates']
+        r._result_sum = d['result_sum']
+        r._result_squared_sum = d['result_squared_sum']
         return r
 
 
